@@ -21,6 +21,8 @@
 //                             out here, BIT-EXACTLY (NaN sign and payload included), half and float rhs; also
 //                             half::operator= (float) against half (f)
 //   arith_self_blocks <lo> <hi>   the same for every a in [lo,hi) x all 65,536 half rhs x 4 operators
+//   arith_self_frows          stdin one line of float patterns: EVERY half a (all 65,536) x those float rhs x 4
+//                             operators, same bit-exact self-check
 //   textio [precision]        every finite half through operator<< then operator>>; mismatches + summary
 //                             (precision: std::setprecision on the stream; default = the stream's default 6)
 //   textio_dec <digits>       every decimal d.dd..e+-k with <digits> significant digits whose value is a
@@ -295,6 +297,22 @@ int main (int argc, char** argv)
             }
         }
         self_report (ga, "assign_float");
+        return 0;
+    }
+    if (cmd == "arith_self_frows")
+    {
+        std::string l1;
+        std::getline (std::cin, l1);
+        std::vector<uint32_t> fs;
+        for (auto& s : words (l1)) fs.push_back ((uint32_t) strtoul (s.c_str (), 0, 16));
+        SelfStat g; SelfStat* pg = &g;
+        const std::vector<uint32_t>* pf = &fs;
+        parallel (65536, [=] (size_t i) {
+            SelfStat loc; uint16_t a = (uint16_t) i; float fx = float (mk (a));
+            for (uint32_t f : *pf) for (int op = 0; op < 4; ++op) self_one (loc, 'f', op, a, f, raw_f (op, a, f), fx, u2f (f));
+            self_merge (*pg, loc);
+        });
+        self_report (g, "arith_self");
         return 0;
     }
     if (cmd == "arith_self_blocks" && argc > 3)
